@@ -53,9 +53,9 @@ func (o *Obl) smt(withModel bool) string {
 	return b.String()
 }
 
-func runSolver(solver, file string, timeoutS int) (status, output string, secs float64) {
+func runSolver(parent context.Context, solver, file string, timeoutS int) (status, output string, secs float64) {
 	var cmd *exec.Cmd
-	ctx, cancel := context.WithTimeout(context.Background(), time.Duration(timeoutS+2)*time.Second)
+	ctx, cancel := context.WithTimeout(parent, time.Duration(timeoutS+2)*time.Second)
 	defer cancel()
 	switch solver {
 	case "z3-new":
@@ -132,10 +132,7 @@ func solveOne(o *Obl, idx int, cfg SolverCfg) {
 	}
 	var outs []string
 	agree := ""
-	for _, s := range solverOrder {
-		t := cfg.TimeoutS
-		st, out, secs := runSolver(s, file, t)
-		o.Secs += secs
+	record := func(s, st, out string, secs float64) {
 		outs = append(outs, fmt.Sprintf("[%s] %s (%.2fs)\n%s", s, st, secs, truncate(out, 600)))
 		if st == "unsat" || st == "sat" {
 			if agree == "" {
@@ -144,10 +141,46 @@ func solveOne(o *Obl, idx int, cfg SolverCfg) {
 			} else if agree != st {
 				o.Status = "disagree"
 			}
-			if !cfg.All {
+		}
+	}
+	// phase 1: the usually fastest solver with a short budget
+	quick := 2
+	if quick > cfg.TimeoutS {
+		quick = cfg.TimeoutS
+	}
+	st1, out1, secs1 := runSolver(context.Background(), solverOrder[0], file, quick)
+	o.Secs += secs1
+	record(solverOrder[0], st1, out1, secs1)
+	if agree == "" || cfg.All {
+		// phase 2: race all solvers with the full budget
+		ctx, cancel := context.WithCancel(context.Background())
+		type res struct {
+			s, st, out string
+			secs       float64
+		}
+		ch := make(chan res, len(solverOrder))
+		n := 0
+		for _, s := range solverOrder {
+			if cfg.All && s == solverOrder[0] && agree != "" {
+				continue
+			}
+			n++
+			go func(s string) {
+				st, out, secs := runSolver(ctx, s, file, cfg.TimeoutS)
+				ch <- res{s, st, out, secs}
+			}(s)
+		}
+		t0 := time.Now()
+		for i := 0; i < n; i++ {
+			r := <-ch
+			record(r.s, r.st, r.out, r.secs)
+			if (r.st == "unsat" || r.st == "sat") && !cfg.All {
+				cancel()
 				break
 			}
 		}
+		cancel()
+		o.Secs += time.Since(t0).Seconds()
 	}
 	if o.Status == "" {
 		o.Status = "unknown"
@@ -163,7 +196,7 @@ func solveOne(o *Obl, idx int, cfg SolverCfg) {
 		mfile := filepath.Join(cfg.WorkDir, base+".model.smt2")
 		os.WriteFile(mfile, []byte(o.smt(true)), 0o644)
 		solver := o.Solver
-		_, out, _ := runSolver(solver, mfile, cfg.TimeoutS)
+		_, out, _ := runSolver(context.Background(), solver, mfile, cfg.TimeoutS)
 		o.Model = parseModel(o, out)
 		o.Output += "\n[model]\n" + truncate(out, 4000)
 		if !cfg.KeepFiles {
